@@ -230,6 +230,8 @@ var MapRichDocs = []string{
 	`{"additionalProperties":{"type":"integer"},"propertyNames":{"maxLength":2,"pattern":"^[a-q]"},"patternProperties":{"^a":{"type":["string","integer"]},"b$":{"minimum":1}},"properties":{"c":{"type":"array"}}}`,
 	// defaults only below properties that have none themselves (containers are created on the way), several per level
 	`{"properties":{"r":{"properties":{"b":{"default":2},"a":{"default":1},"c":{"properties":{"z":{"default":[1]},"y":{"default":{"k":1}}}}}},"s":{"properties":{"a":{"properties":{"a":{"default":null}}}},"required":["zz"]},"t":{"properties":{"q":{"default":1}},"required":["q"]}}}`,
+	// names that differ only in letter case (any order that is not total on them shows)
+	`{"properties":{"id":{"type":"integer"},"ID":{"type":"string"},"Id":true,"iD":false,"a":{}},"required":["ID","id"],"x-A":1,"x-a":2,"$defs":{"Q":{},"q":{}}}`,
 	// one malformed member among well-formed ones: refused under every visiting order
 	`{"dependencies":{"b":["c"],"a":[1],"d":{"type":"integer"}},"properties":{"p":{"dependencies":{"x":5,"y":["z"]}}}}`,
 	// unevaluatedItems after contains / prefixItems in several in-place branches
